@@ -16,8 +16,9 @@ Verdict ==
       StoppedBefore(i) == {u \in ActUids(T[i - 1].proj) : \E j \in 1..(i - 1) : \E q \in 1..Len(T[j].out_acts) : T[j].out_acts[q] = <<"Stop", u>>}
       badL2b == {i \in 2..Len(T) : ~L2b(T[i - 1].proj, T[i].proj, T[i], StoppedBefore(i))}
       badL2c == {i \in 2..Len(T) : ~L2c(T[i - 1].proj, T[i].proj, T[i])}
+      badL3 == {i \in 2..Len(T) : ~L3(T[i - 1].proj, T[i].proj)}
       m == L2(T)
-  IN PrintT(ToJson([k |-> k, n |-> Len(T), bad9 |-> bad9, l1 |-> badL1, l2b |-> badL2b, l2c |-> badL2c,
+  IN PrintT(ToJson([k |-> k, n |-> Len(T), bad9 |-> bad9, l1 |-> badL1, l2b |-> badL2b, l2c |-> badL2c, l3 |-> badL3,
                     orphans |-> [i \in badL1 |-> Orphans(T[i].proj)],
                     l2ok |-> m[1], l2step |-> m[2], l2what |-> m[3]]))
 =============================================================================
